@@ -359,6 +359,31 @@ func prepareCorrectionOptions(o *CorrectionOptions, opts ...schema.Option) error
 		row(o)
 	}
 
+	// What follows, and the normalizers run on the corrected invoice, modify
+	// the extensions, stamps and date: never share them with the values the
+	// caller provided, which may be used again.
+	if o.IssueDate != nil {
+		d := *o.IssueDate
+		o.IssueDate = &d
+	}
+	if o.Ext != nil {
+		ext := make(tax.Extensions, len(o.Ext))
+		for k, v := range o.Ext {
+			ext[k] = v
+		}
+		o.Ext = ext
+	}
+	if len(o.Stamps) > 0 {
+		stamps := make([]*head.Stamp, 0, len(o.Stamps))
+		for _, s := range o.Stamps {
+			if s != nil {
+				sc := *s
+				stamps = append(stamps, &sc)
+			}
+		}
+		o.Stamps = stamps
+	}
+
 	// Copy over the stamps from the previous header
 	if o.Head != nil && len(o.Head.Stamps) > 0 {
 		// copy them: the options may be overwritten below, and must never
